@@ -409,10 +409,11 @@ fn get_targets_root_only(
 fn get_targets_recursive(
     manifest_path: Option<&Path>,
     targets: &mut BTreeSet<Target>,
-    visited: &mut BTreeSet<String>,
+    visited: &mut BTreeSet<PathBuf>,
 ) -> Result<(), io::Error> {
     let metadata = get_cargo_metadata(manifest_path)?;
-    for package in &metadata.packages {
+    let packages = &metadata.packages;
+    for package in packages {
         add_targets(&package.targets, targets);
 
         // Look for local dependencies using information available since cargo v1.51
@@ -422,18 +423,19 @@ fn get_targets_recursive(
         // confirm their version of `cargo` (not `cargo-fmt`) is >= v1.51
         // https://github.com/rust-lang/cargo/pull/8994
         for dependency in &package.dependencies {
-            if dependency.path.is_none() || visited.contains(&dependency.name) {
+            let Some(dependency_path) = dependency.path.as_ref() else {
+                continue;
+            };
+
+            // Two local packages may have the same name: a dependency is its manifest.
+            let manifest_path = PathBuf::from(dependency_path).join("Cargo.toml");
+            if visited.contains(&manifest_path) {
                 continue;
             }
-
-            let manifest_path = PathBuf::from(dependency.path.as_ref().unwrap()).join("Cargo.toml");
             if manifest_path.exists()
-                && !metadata
-                    .packages
-                    .iter()
-                    .any(|p| p.manifest_path.eq(&manifest_path))
+                && !packages.iter().any(|p| p.manifest_path.eq(&manifest_path))
             {
-                visited.insert(dependency.name.to_owned());
+                visited.insert(manifest_path.clone());
                 get_targets_recursive(Some(&manifest_path), targets, visited)?;
             }
         }
